@@ -61,6 +61,7 @@ class GeckoAsyncSpa(Observable):
         self._transport: Optional[asyncio.BaseTransport] = None
         self._protocol: Optional[GeckoAsyncUdpProtocol] = None
         self._is_connected = False
+        self._disconnect_requested = False
 
         self.intouch_version_en = ""
         self.intouch_version_co = ""
@@ -153,6 +154,13 @@ class GeckoAsyncSpa(Observable):
         )
         assert isinstance(_protocol, GeckoAsyncUdpProtocol)
         self._protocol = _protocol
+        if self._disconnect_requested:
+            # disconnect() ran while the endpoint was still being opened and
+            # could not close it; do not carry on with an orphan connection
+            self._protocol.disconnect()
+            self._protocol = None
+            self._transport = None
+            return
         await asyncio.sleep(GeckoConstants.CONNECTION_STEP_PAUSE_IN_SECONDS)
 
         self._taskman.add_task(
@@ -372,6 +380,7 @@ class GeckoAsyncSpa(Observable):
     async def disconnect(self) -> None:
         """Disconnect the spa from the async protocol"""
         self._is_connected = False
+        self._disconnect_requested = True
         await self._event_handler(GeckoSpaEvent.RUNNING_SPA_DISCONNECTED)
         self.struct.reset()
         self._taskman.cancel_key_tasks("SPA")
